@@ -58,7 +58,53 @@ def run_one(sid, runs=None, tier='quick'):
         shutil.rmtree(scratch, ignore_errors=True)
 
 
+def run_benign(bid, runs=None, tier='quick'):
+    """A semantics-preserving change: both checks must stay silent (exit 0, no VIOLATION line)."""
+    d = os.path.join(VERIF, 'benign', bid)
+    scratch = tempfile.mkdtemp(prefix='kneesim-benign-', dir='/tmp')
+    res = {'id': bid, 'checks': {}}
+    try:
+        shutil.copytree('/repo/src', os.path.join(scratch, 'src'), ignore=shutil.ignore_patterns('__pycache__', '*.egg-info'))
+        os.symlink('/repo/traces', os.path.join(scratch, 'traces'))
+        p = subprocess.run(['patch', '-p1', '-s', '-i', os.path.join(d, 'patch.diff')], cwd=scratch, capture_output=True, text=True)
+        if p.returncode != 0:
+            res['status'] = 'patch does not apply'
+            return res
+        for prop in ('C15', 'C20'):
+            env = dict(os.environ)
+            env.pop('KNEESIM_PINNED', None)
+            env['KNEESIM_SRC'] = os.path.join(scratch, 'src')
+            env['KNEESIM_OUT'] = os.path.join(scratch, 'out')
+            cmd = [PY, os.path.join(VERIF, 'checks', 'run.py'), prop, '--tier', tier, '--no-selftest']
+            if runs:
+                cmd += ['--runs', str(runs)]
+            q = subprocess.run(cmd, env=env, capture_output=True, text=True, timeout=3600)
+            res['checks'][prop] = {'exit': q.returncode, 'silent': q.returncode == 0 and 'VIOLATION' not in q.stdout,
+                                   'lines': [l[:500] for l in q.stdout.splitlines() if l.startswith(('violation detail', 'HARNESS', 'VIOLATION'))][:4],
+                                   'summary': q.stdout.splitlines()[-1][:200] if q.stdout.strip() else ''}
+        res['silent'] = all(c['silent'] for c in res['checks'].values())
+        return res
+    finally:
+        shutil.rmtree(scratch, ignore_errors=True)
+
+
+def main_benign():
+    root = os.path.join(VERIF, 'benign')
+    ids = [a for a in sys.argv[1:] if not a.startswith('--')] or sorted(x for x in os.listdir(root) if os.path.isdir(os.path.join(root, x)))
+    out = []
+    for bid in ids:
+        r = run_benign(bid)
+        print('%-8s %s  %s' % (bid, 'SILENT' if r.get('silent') else 'ALARM', json.dumps({k: v['lines'] for k, v in r['checks'].items() if v['lines']})[:600]))
+        sys.stdout.flush()
+        out.append(r)
+    json.dump(out, open(os.path.join(root, 'RESULTS.json'), 'w'), indent=1)
+    return 0
+
+
 def main():
+    if '--benign' in sys.argv:
+        sys.argv.remove('--benign')
+        return main_benign()
     args = [a for a in sys.argv[1:] if not a.startswith('--')]
     runs = None
     tier = 'quick'
